@@ -417,7 +417,7 @@ c09 = pool_prop(
     "compared: NumRemotes after every operation and which connection each instruction is sent over; plus the built `vipnode pool` binary "
     "(server.go): 3 reconnect / close scenarios x 5 ways a WebSocket connection can end (TCP drop, close frames 1000 / 1001 / 4000, close "
     "frame without waiting for the echo), replies and instructions validated against the same VipPool functions",
-    lambda tier: [("VipStoreMC", "VipStoreMC_peer_q.cfg")] + ([("VipPoolMC", "VipPoolMC_peer_q.cfg")] if tier == "quick" else [("VipPoolMC", "VipPoolMC_peer.cfg")]),
+    lambda tier: [("VipPoolReg", "VipPoolReg_inside.cfg"), ("VipStoreMC", "VipStoreMC_peer_q.cfg")] + ([("VipPoolMC", "VipPoolMC_peer_q.cfg")] if tier == "quick" else [("VipPoolMC", "VipPoolMC_peer.cfg")]),
     weights=dict(reconnect=25, close=18, reopen=15, peer=30, update=10, sleep=6, host=4, forged=2, connectdrop=8),
     extra_jobs=c09_binary)
 
